@@ -129,8 +129,12 @@ def classify(s):
         if c in CLOSE:
             if not stack or stack[-1].kind != "delim" or stack[-1].close != c:
                 return ("undecided", None)
-            stack.pop()
+            closed = stack.pop()
             i += 1
+            if closed.extra == "#?(" and stack and (stack[-1].kind != "delim" or stack[-1].extra == "{"):
+                # a reader conditional yields one form, none (no branch selected: `'#?()` still owes the quoted form) or,
+                # spliced, several: where the number matters (after a prefix / #_, or for the parity of a map) give up
+                return ("undecided", None)
             deliver()
             continue
         if c in "'@":
@@ -463,6 +467,10 @@ class Ctx:
                             res.fail("span-does-not-reread", case, form=self._show(form), span_text=text, reread="span of #() does not start at '#('")
                         else:
                             k, again = self.read_all(text)
+                            if k == "syntax" and "#?" in s[:a] and "No data reader found" in str(again):
+                                # inside a reader conditional the reader tolerates unknown tags (branches of other dialects may
+                                # use them), also in a discarded form of the selected branch: re-read the span in that context
+                                k, again = self.read_all("#?(:lpy " + text + "\n)")
                             ok = k == "ok" and len(again) == 1 and self._eq(again[0], form)
                             if not ok:
                                 res.fail("span-does-not-reread", case, form=self._show(form), span_text=text,
